@@ -1,36 +1,1081 @@
-use vcore::budgetmodel as bm;
-use vcore::val::Val;
+//! C07 — budget limits are enforced exactly and the usage report is accurate.
+//!
+//! Reference model: `vcore::budgetmodel` (an independent fold over the raw
+//! parser events, aliases followed by the reference expansion of their anchor).
+//! A verdict is only given when the model agrees with the hook trace on every
+//! quantity the trace can show (pumps by source, replayed events, nodes, depth,
+//! scalar bytes, alias pushes, document resets); otherwise the case is
+//! inconclusive.
+//!
+//! Oracles
+//!  1. report accuracy: all limits off, the `BudgetReport` handed to
+//!     `with_budget_report` equals the independent count field by field;
+//!  2. threshold exactness, one counter at a time: limit = U ⇒ Ok (same value),
+//!     limit = U−1 ⇒ `Error::Budget` with the breach variant of that counter
+//!     (events additionally U−2 on the single-document entry points);
+//!  3. alias/anchor ratio heuristic against its documented formula;
+//!  4. per-document independence (`read_with_options`): the items of a stream are
+//!     the concatenation of the items of its documents read alone (up to the
+//!     first error), under every permutation tried, and follow the per-document
+//!     model counts;
+//!  5. `budget::check_yaml_budget` on alias-free inputs: report = model, breach
+//!     exactly at U−1.
+//!
+//! A budget error raised while an alias is being replayed reaches the caller as
+//! `Error::AliasError { msg = rendering of the budget error }`; it is accepted as
+//! the matching budget error (`budgetmodel::effective_kind`) and counted.
+//! Reproductions of the defects found on the pinned tree and the minimal fixes
+//! that silence them: `checks/c07/repro/`.
 
-fn run(doc: &str, b: serde_saphyr::Budget) {
-    let (o, got) = bm::options_with(b);
-    let r = serde_saphyr::from_str_with_options::<Val>(doc, o);
-    let m = bm::model(doc);
-    println!("doc={doc:?}\n  -> {:?}\n  report={:?}\n  model={:?}", r.as_ref().map(|v| v.to_string()).map_err(|e| format!("{:?}", e.without_snippet())), got.borrow().last().map(bm::Counts::of_report), m.map(|m| m.all));
+use serde_json::{Value, json};
+use std::collections::BTreeMap;
+use vcore::budgetmodel::{self as bm, Counts, FIELDS, MonLimits, StreamModel};
+use vcore::reftree::{self, render_checked};
+use vcore::rng::{Rng, fnv_parts};
+use vcore::run::{Finish, Run, Tier, par_range};
+use vcore::treegen::{self, LEAVES_BASIC};
+use vcore::val::Val;
+use vcore::ydoc::{self, Node, RenderOpts};
+
+// ------------------------------------------------------------------ running the real code
+
+#[derive(Clone, Copy, Debug, PartialEq, Eq)]
+enum Entry {
+    Str,
+    Reader,
+    Multi,
 }
 
-fn main() {
-    let u = bm::unlimited_budget();
-    run("a: 1\n", u.clone());
-    let mut b = u.clone();
-    b.max_events = 7;
-    run("a: 1\n", b.clone());
-    b.max_events = 5;
-    run("a: 1\n", b.clone());
-    run("x: &x 1\nm: &m {k: 2}\nt: {a: *x, <<: *m}\n", u.clone());
-    run("x: &x 1\nm: &m {k: 2}\nt: {<<: *m, a: *x}\n", u.clone());
-    run("x: &x 1\nt: {a: *x, b: <<}\n", u.clone());
-    let mut b = u.clone();
-    b.enforce_alias_anchor_ratio = true;
-    b.alias_anchor_min_aliases = 0;
-    b.alias_anchor_ratio_multiplier = 10;
-    run("a: 1\n", b.clone());
-    // per doc
-    let mut b = u.clone();
-    b.max_anchors = 1;
-    let (o, _got) = bm::options_with(b);
-    let txt = "&a 1\n---\n&a 2\n---\n&b 3\n";
-    let mut rd = txt.as_bytes();
-    for it in serde_saphyr::read_with_options::<_, Val>(&mut rd, o) {
-        println!("item {:?}", it.map(|v| v.to_string()).map_err(|e| format!("{:?}", e.without_snippet())));
+impl Entry {
+    fn name(self) -> &'static str {
+        match self {
+            Entry::Str => "from_str_with_options",
+            Entry::Reader => "from_reader_with_options",
+            Entry::Multi => "from_multiple_with_options",
+        }
     }
+    fn of(s: &str) -> Entry {
+        match s {
+            "from_reader_with_options" => Entry::Reader,
+            "from_multiple_with_options" => Entry::Multi,
+            _ => Entry::Str,
+        }
+    }
+    fn single_document(self) -> bool {
+        !matches!(self, Entry::Multi)
+    }
+}
+
+/// Ok(value rendering) or Err(kind, budget field if `Error::Budget`).
+type Out = Result<String, (String, Option<&'static str>)>;
+
+fn to_out<T: std::fmt::Display>(r: Result<T, serde_saphyr::Error>) -> Out {
+    match r {
+        Ok(v) => Ok(v.to_string()),
+        Err(e) => {
+            let k = bm::effective_kind(&e);
+            if k.wrapped {
+                WRAPPED.fetch_add(1, std::sync::atomic::Ordering::Relaxed);
+            }
+            Err((k.kind, k.budget_field))
+        }
+    }
+}
+
+/// `Run::violation` with a cap per signature (its bookkeeping is quadratic in the number of unlisted
+/// violations); everything beyond the cap is only counted.
+fn violation(run: &Run, sig: &str, case: Value, detail: impl Into<String>) {
+    static SEEN: std::sync::Mutex<Option<std::collections::HashMap<String, u64>>> = std::sync::Mutex::new(None);
+    let n = {
+        let mut g = SEEN.lock().unwrap();
+        let m = g.get_or_insert_with(Default::default);
+        let e = m.entry(sig.to_string()).or_insert(0);
+        *e += 1;
+        *e
+    };
+    if n <= 300 {
+        run.violation(sig, case, detail);
+    } else {
+        run.count(&format!("violations_beyond_cap/{sig}"), 1);
+    }
+}
+
+/// Budget errors that arrived as `AliasError { msg: <rendering of the budget error> }`
+/// (breach during an alias replay); accepted as the matching budget error, counted.
+static WRAPPED: std::sync::atomic::AtomicU64 = std::sync::atomic::AtomicU64::new(0);
+
+fn show(o: &Out) -> String {
+    match o {
+        Ok(v) => format!("Ok({v})"),
+        Err((k, Some(f))) => format!("Err({k}:{f})"),
+        Err((k, None)) => format!("Err({k})"),
+    }
+}
+
+fn exec(entry: Entry, text: &str, o: serde_saphyr::Options) -> Out {
+    match entry {
+        Entry::Str => to_out(serde_saphyr::from_str_with_options::<Val>(text, o)),
+        Entry::Reader => to_out(serde_saphyr::from_reader_with_options::<_, Val>(text.as_bytes(), o)),
+        Entry::Multi => to_out(serde_saphyr::from_multiple_with_options::<Val>(text, o).map(Val::Seq)),
+    }
+}
+
+/// One run under `budget`: (outcome, reports handed to the callback) or panic text.
+fn run_budget(
+    run: &Run,
+    entry: Entry,
+    text: &str,
+    budget: serde_saphyr::Budget,
+) -> Result<(Out, Vec<serde_saphyr::budget::BudgetReport>), String> {
+    run.eval();
+    let (o, got) = bm::options_with(budget);
+    let r = vcore::obs::catch(|| exec(entry, text, o))?;
+    let reports = got.borrow().clone();
+    Ok((r, reports))
+}
+
+/// One signature for every manifestation of "the merge-key counter is off in a
+/// document that has an alias as a direct child of a mapping".
+const SIG_MERGE_MISCOUNT: &str = "C07:merge_keys:miscounted:alias-direct-map-child";
+
+/// Is a wrong threshold outcome on `merge_keys` explained by the (wrong) count the
+/// library itself reported? Then it is the same defect as the report mismatch;
+/// otherwise the enforcement is broken in its own right and gets its own signature.
+fn merge_threshold_sig(
+    field: &str,
+    m: &StreamModel,
+    reported: Option<u64>,
+    limit: u64,
+    out: &Out,
+    fallback: String,
+) -> String {
+    if field != "merge_keys" || !m.flags.alias_direct_map_child {
+        return fallback;
+    }
+    let Some(r) = reported else { return fallback };
+    if r == m.all.merge_keys {
+        return fallback;
+    }
+    let consistent = match out {
+        Ok(_) => r <= limit,
+        Err((_, Some("merge_keys"))) => r > limit,
+        Err(_) => false,
+    };
+    if consistent { SIG_MERGE_MISCOUNT.to_string() } else { fallback }
+}
+
+// ------------------------------------------------------------------ oracle 1+2+3+5 on one input
+
+#[derive(Default)]
+struct Local {
+    c: BTreeMap<&'static str, u64>,
+}
+impl Local {
+    fn add(&mut self, k: &'static str) {
+        *self.c.entry(k).or_insert(0) += 1;
+    }
+}
+
+fn check_input(run: &Run, entry: Entry, text: &str, loc: &mut Local) {
+    let case = || json!({"kind": "input", "entry": entry.name(), "text": text});
+    let m = match bm::model(text) {
+        Ok(m) => m,
+        Err(_) => {
+            run.inconclusive("generator-invalid: raw parser rejects the input");
+            return;
+        }
+    };
+    if m.flags.unresolved_alias {
+        loc.add("skipped/unresolvable-alias");
+        return;
+    }
+    if entry.single_document() && m.docs.len() != 1 {
+        run.inconclusive("generator-invalid: not exactly one document");
+        return;
+    }
+
+    // ---- unlimited run, monitored
+    run.eval();
+    let (o, got) = bm::options_with(bm::unlimited_budget());
+    let (r, mon) = bm::monitor(MonLimits::none(), m.max_anchor_id, || vcore::obs::catch(|| exec(entry, text, o)));
+    let base = match r {
+        Err(p) => {
+            violation(run, &format!("C07:panic:{}", vcore::obs::panic_site(&p)), case(), p);
+            return;
+        }
+        Ok(Err((k, f))) => {
+            // not a document the untyped target accepts (merge of a scalar, …): no oracle here
+            if f.is_some() {
+                violation(
+    run,
+                    "C07:unlimited-budget-rejects",
+                    case(),
+                    format!("every limit at usize::MAX, ratio off, yet Err({k}:{})", f.unwrap_or("")),
+                );
+            } else {
+                loc.add("skipped/unlimited-run-fails");
+                run.observe("unlimited_run_error_kinds", &k);
+            }
+            return;
+        }
+        Ok(Ok(v)) => v,
+    };
+    if let Some(why) = bm::trace_disagreement(&m, &mon) {
+        run.inconclusive(why);
+        return;
+    }
+    loc.add("verdict_capable_inputs");
+    *loc.c.entry("hook/parser_pumps").or_insert(0) += mon.pumps_parser;
+    *loc.c.entry("hook/replay_pumps").or_insert(0) += mon.pumps_replay;
+    *loc.c.entry("hook/alias_pushes").or_insert(0) += mon.alias_pushes;
+    *loc.c.entry("hook/doc_resets").or_insert(0) += mon.doc_resets;
+
+    let merge_unspecified = m.flags.alias_key_to_merge_scalar || m.flags.tagged_merge_like;
+    if merge_unspecified {
+        loc.add("unspecified/merge-key-through-alias-or-tag");
+    }
+
+    // ---- 1. report accuracy
+    let reports = got.borrow().clone();
+    let reported_merge: Option<u64> = if reports.len() == 1 { Some(reports[0].merge_keys as u64) } else { None };
+    if reports.len() != 1 {
+        violation(
+    run,
+            "C07:report:callback-count",
+            case(),
+            format!("successful parse, budget configured: callback invoked {} times (expected once)", reports.len()),
+        );
+    } else {
+        let rep = &reports[0];
+        if let Some(b) = &rep.breached {
+            violation(run, "C07:report:breached-on-unlimited", case(), format!("breached = {b:?} with every limit off"));
+        }
+        let got_c = Counts::of_report(rep);
+        let mut diff = got_c.diff(&m.all);
+        if merge_unspecified {
+            diff.retain(|f| *f != "merge_keys");
+        }
+        if diff.is_empty() {
+            loc.add("report_equal_model");
+        } else {
+            let sig = if diff == ["merge_keys"] && m.flags.alias_direct_map_child {
+                SIG_MERGE_MISCOUNT.to_string()
+            } else {
+                format!("C07:report:{}", diff.join("+"))
+            };
+            violation(
+    run,
+                &sig,
+                case(),
+                format!("report {} != independent count {}", got_c.to_json(), m.all.to_json()),
+            );
+        }
+    }
+
+    // ---- 2. threshold exactness
+    let mut nontrivial = false;
+    for field in FIELDS {
+        if field == "merge_keys" && merge_unspecified {
+            continue;
+        }
+        let u = m.all.get(field);
+        if u >= (usize::MAX as u64) / 2 {
+            continue;
+        }
+        let mut probes: Vec<(u64, bool)> = vec![(u, true)];
+        if u >= 1 {
+            probes.push((u - 1, false));
+        }
+        if field == "events" && u >= 2 {
+            probes.push((u - 2, false));
+        }
+        let mut both = 0;
+        for (limit, expect_ok) in probes {
+            let mut b = bm::unlimited_budget();
+            bm::set_limit(&mut b, field, limit as usize);
+            let cj = || json!({"kind": "input", "entry": entry.name(), "text": text, "field": field, "limit": limit, "usage": u});
+            let (out, reps) = match run_budget(run, entry, text, b.clone()) {
+                Ok(x) => x,
+                Err(p) => {
+                    violation(run, &format!("C07:panic:{}", vcore::obs::panic_site(&p)), cj(), p);
+                    continue;
+                }
+            };
+            both += 1;
+            match (&out, expect_ok) {
+                (Ok(v), true) => {
+                    if *v != base {
+                        violation(
+    run,
+                            &format!("C07:threshold:{field}:value-changed"),
+                            cj(),
+                            format!("value under limit=U differs: {v} vs {base}"),
+                        );
+                    } else {
+                        loc.add("threshold_at_usage_ok");
+                    }
+                    if reps.len() == 1 && reps[0].breached.is_some() {
+                        violation(run, &format!("C07:threshold:{field}:ok-but-breached-report"), cj(), "Ok with breached report");
+                    }
+                }
+                (Err((k, f)), true) => {
+                    let sig = merge_threshold_sig(field, &m, reported_merge, limit, &out, format!("C07:threshold:{field}:false-rejection"));
+                    violation(
+    run,
+                        &sig,
+                        cj(),
+                        format!("usage {u} within limit {limit}, got Err({k}:{})", f.unwrap_or("-")),
+                    );
+                }
+                (Err((_, Some(f))), false) if *f == field => {
+                    loc.add("threshold_below_usage_err");
+                    // observation only (not part of the statement): Options docs say the report callback is
+                    // also invoked when the budget was breached
+                    loc.add(if reps.is_empty() { "observed/report_callback_not_invoked_on_breach" } else { "observed/report_callback_invoked_on_breach" });
+                    run.observe("breach_fields_seen", field);
+                }
+                (Err((k, f)), false) => {
+                    violation(
+    run,
+                        &format!("C07:threshold:{field}:wrong-error:{k}:{}", f.unwrap_or("-")),
+                        cj(),
+                        format!("usage {u} > limit {limit}: expected Budget/{field}, got Err({k}:{})", f.unwrap_or("-")),
+                    );
+                }
+                (Ok(_), false) => {
+                    let sfx = if field == "events" && limit + 1 == u && entry.single_document() {
+                        ":breach-at-stream-end-swallowed"
+                    } else {
+                        ""
+                    };
+                    let sig = merge_threshold_sig(field, &m, reported_merge, limit, &out, format!("C07:threshold:{field}:not-enforced{sfx}"));
+                    violation(
+    run,
+                        &sig,
+                        cj(),
+                        format!("usage {u} > limit {limit}, yet Ok ({})", entry.name()),
+                    );
+                }
+            }
+            // ---- 5. check_yaml_budget on alias-free input
+            if m.all.aliases == 0 {
+                run.eval();
+                match vcore::obs::catch(|| {
+                    serde_saphyr::budget::check_yaml_budget(text, b, serde_saphyr::budget::EnforcingPolicy::AllContent)
+                }) {
+                    Err(p) => violation(run, &format!("C07:panic:{}", vcore::obs::panic_site(&p)), cj(), p),
+                    Ok(Err(e)) => violation(
+    run,
+                        "C07:check_yaml_budget:scan-error",
+                        cj(),
+                        format!("scan error {e} on an input the parser accepts"),
+                    ),
+                    Ok(Ok(rep)) => {
+                        let bf = rep.breached.as_ref().map(bm::breach_field);
+                        let want = if expect_ok { None } else { Some(field) };
+                        if bf != want {
+                            violation(
+    run,
+                                &format!("C07:check_yaml_budget:{field}:{}", if expect_ok { "false-breach" } else { "no-breach" }),
+                                cj(),
+                                format!("breached = {:?}, expected {:?}", rep.breached, want),
+                            );
+                        } else {
+                            loc.add("check_yaml_budget_agrees");
+                        }
+                        if expect_ok && rep.breached.is_none() {
+                            let d = Counts::of_report(&rep).diff(&m.all);
+                            if !d.is_empty() {
+                                violation(
+    run,
+                                    &format!("C07:check_yaml_budget:report:{}", d.join("+")),
+                                    cj(),
+                                    format!("report {} != count {}", Counts::of_report(&rep).to_json(), m.all.to_json()),
+                                );
+                            }
+                        }
+                    }
+                }
+            }
+        }
+        if u >= 2 && both >= 2 {
+            nontrivial = true;
+        }
+    }
+    if nontrivial {
+        run.nontrivial(fnv_parts(&[text.as_bytes(), entry.name().as_bytes()]));
+    }
+
+    // ---- 3. ratio heuristic (documented: breach iff aliases >= min && aliases > multiplier * anchors)
+    let a = m.all.aliases;
+    let n = m.all.anchors;
+    let mut ratio_cases: Vec<(u64, u64)> = Vec::new(); // (min_aliases, multiplier)
+    let k_ok = if n > 0 { a.div_ceil(n) } else { 1 };
+    ratio_cases.push((a, k_ok));
+    ratio_cases.push((a + 1, 0));
+    if a >= 1 {
+        ratio_cases.push((a, 0));
+        if n > 0 && k_ok >= 1 {
+            ratio_cases.push((a, k_ok - 1));
+        }
+        ratio_cases.push((1, k_ok));
+    }
+    for (min_a, mult) in ratio_cases {
+        let mut b = bm::unlimited_budget();
+        b.enforce_alias_anchor_ratio = true;
+        b.alias_anchor_min_aliases = min_a as usize;
+        b.alias_anchor_ratio_multiplier = mult as usize;
+        let expect_breach = a >= min_a && a > mult * n;
+        let cj = || json!({"kind": "input", "entry": entry.name(), "text": text, "ratio": {"min_aliases": min_a, "multiplier": mult}, "aliases": a, "anchors": n});
+        let (out, reps) = match run_budget(run, entry, text, b) {
+            Ok(x) => x,
+            Err(p) => {
+                violation(run, &format!("C07:panic:{}", vcore::obs::panic_site(&p)), cj(), p);
+                continue;
+            }
+        };
+        match (&out, expect_breach) {
+            (Ok(_), false) => loc.add("ratio_ok_as_documented"),
+            (Err((_, Some("ratio"))), true) => {
+                loc.add("ratio_breach_as_documented");
+                run.observe("breach_fields_seen", "ratio");
+                if !(reps.len() == 1 && reps[0].breached.as_ref().map(bm::breach_field) == Some("ratio")) {
+                    violation(run, "C07:ratio:report-without-breach", cj(), "ratio error but the report handed over has no ratio breach");
+                }
+            }
+            (Ok(_), true) => violation(
+    run,
+                "C07:ratio:not-enforced",
+                cj(),
+                format!("aliases {a} >= {min_a} and {a} > {mult}*{n}: expected AliasAnchorRatio, got Ok"),
+            ),
+            (Err((k, f)), false) => {
+                let sig = if a == 0 && n == 0 && *f == Some("ratio") {
+                    "C07:ratio:false-rejection:no-aliases-no-anchors".to_string()
+                } else {
+                    format!("C07:ratio:false-rejection:{k}:{}", f.unwrap_or("-"))
+                };
+                violation(
+    run,
+                    &sig,
+                    cj(),
+                    format!("documented rule gives no breach (aliases {a}, anchors {n}, min {min_a}, multiplier {mult}); got Err({k}:{})", f.unwrap_or("-")),
+                );
+            }
+            (Err((k, f)), true) => violation(
+    run,
+                &format!("C07:ratio:wrong-error:{k}:{}", f.unwrap_or("-")),
+                cj(),
+                "expected AliasAnchorRatio",
+            ),
+        }
+    }
+}
+
+// ------------------------------------------------------------------ oracle 4: per-document independence
+
+fn read_items(run: &Run, text: &str, budget: serde_saphyr::Budget, cap: usize) -> Result<Vec<Out>, String> {
+    run.eval();
+    let (o, _got) = bm::options_with(budget);
+    vcore::obs::catch(|| {
+        let mut rd = text.as_bytes();
+        let mut v = Vec::new();
+        for it in serde_saphyr::read_with_options::<_, Val>(&mut rd, o) {
+            v.push(to_out(it));
+            if v.len() >= cap {
+                break;
+            }
+        }
+        v
+    })
+}
+
+fn truncate_after_first_err(v: &mut Vec<Out>) {
+    if let Some(i) = v.iter().position(|o| o.is_err()) {
+        v.truncate(i + 1);
+    }
+}
+
+fn join_stream(docs: &[String]) -> String {
+    docs.join("---\n")
+}
+
+fn check_perdoc(run: &Run, docs: &[String], loc: &mut Local) {
+    let text = join_stream(docs);
+    let case = |extra: Value| json!({"kind": "perdoc", "docs": docs, "budget": extra});
+    let m = match bm::model(&text) {
+        Ok(m) => m,
+        Err(_) => {
+            run.inconclusive("generator-invalid: raw parser rejects the stream");
+            return;
+        }
+    };
+    if m.docs.len() != docs.len() || m.flags.unresolved_alias {
+        run.inconclusive("generator-invalid: stream does not have the intended documents");
+        return;
+    }
+    // each document alone must be the same document (per-document model counts equal)
+    let mut solo_models = Vec::new();
+    for (j, d) in docs.iter().enumerate() {
+        match bm::model(d) {
+            Ok(sm) if sm.docs.len() == 1 && doc_counts(&sm.docs[0]) == doc_counts(&m.docs[j]) => solo_models.push(sm),
+            _ => {
+                run.inconclusive("generator-invalid: document differs inside the stream");
+                return;
+            }
+        }
+    }
+    // unlimited, monitored: items + guard
+    run.eval();
+    let (o, _got) = bm::options_with(bm::unlimited_budget());
+    let (r, mon) = bm::monitor(MonLimits::none(), m.max_anchor_id, || {
+        vcore::obs::catch(|| {
+            let mut rd = text.as_bytes();
+            serde_saphyr::read_with_options::<_, Val>(&mut rd, o).map(to_out).take(docs.len() + 3).collect::<Vec<Out>>()
+        })
+    });
+    let base = match r {
+        Err(p) => {
+            violation(run, &format!("C07:panic:{}", vcore::obs::panic_site(&p)), case(json!("unlimited")), p);
+            return;
+        }
+        Ok(v) => v,
+    };
+    if base.len() != docs.len() || base.iter().any(|o| o.is_err()) {
+        loc.add("skipped/stream-unlimited-run-not-all-ok");
+        return;
+    }
+    if let Some(why) = bm::trace_disagreement(&m, &mon) {
+        run.inconclusive(why);
+        return;
+    }
+    loc.add("verdict_capable_streams");
+    *loc.c.entry("hook/doc_resets").or_insert(0) += mon.doc_resets;
+    *loc.c.entry("hook/replay_pumps").or_insert(0) += mon.pumps_replay;
+    let merge_unspecified = m.flags.alias_key_to_merge_scalar || m.flags.tagged_merge_like;
+
+    let per_doc = |f: &str, j: usize| -> u64 {
+        let d = &m.docs[j];
+        match f {
+            "aliases" => d.aliases,
+            "anchors" => d.anchors,
+            "nodes" => d.nodes,
+            "max_depth" => d.max_depth,
+            "total_scalar_bytes" => d.total_scalar_bytes,
+            "merge_keys" => d.merge_keys,
+            // content events + alias events; the markers that belong to a document are not pinned down
+            "events" => d.parser_pumps + d.replayed_events + d.aliases,
+            _ => 0,
+        }
+    };
+    let mut budgets: Vec<(&'static str, u64)> = Vec::new();
+    for f in ["events", "aliases", "anchors", "nodes", "max_depth", "total_scalar_bytes", "merge_keys"] {
+        if f == "merge_keys" && merge_unspecified {
+            continue;
+        }
+        let us: Vec<u64> = (0..docs.len()).map(|j| per_doc(f, j)).collect();
+        let mut ls: Vec<u64> = Vec::new();
+        for u in &us {
+            if f == "events" {
+                for k in 0..4 {
+                    ls.push(u + k);
+                }
+            } else {
+                ls.push(*u);
+                if *u > 0 {
+                    ls.push(u - 1);
+                }
+            }
+        }
+        ls.sort();
+        ls.dedup();
+        for l in ls {
+            budgets.push((f, l));
+        }
+    }
+    // `max_documents` is documented as ignored under the per-document policy
+    budgets.push(("documents", 0));
+
+    let mut nontrivial = false;
+    for (f, limit) in budgets {
+        let mut b = bm::unlimited_budget();
+        bm::set_limit(&mut b, f, limit as usize);
+        let cj = || case(json!({"field": f, "limit": limit}));
+        let mut observed = match read_items(run, &text, b.clone(), docs.len() + 3) {
+            Ok(v) => v,
+            Err(p) => {
+                violation(run, &format!("C07:panic:{}", vcore::obs::panic_site(&p)), cj(), p);
+                continue;
+            }
+        };
+        truncate_after_first_err(&mut observed);
+        // (a) differential: concatenation of the documents read alone
+        let mut expected: Vec<Out> = Vec::new();
+        let mut bad = false;
+        for d in docs {
+            match read_items(run, d, b.clone(), 4) {
+                Ok(v) => expected.extend(v),
+                Err(p) => {
+                    violation(run, &format!("C07:panic:{}", vcore::obs::panic_site(&p)), cj(), p);
+                    bad = true;
+                }
+            }
+            if expected.iter().any(|o| o.is_err()) {
+                break;
+            }
+        }
+        if bad {
+            continue;
+        }
+        truncate_after_first_err(&mut expected);
+        // classification helpers
+        // "anchors are counted across documents": the first item that differs is an Anchors breach at a
+        // document that is within the limit on its own while the documents read so far together are not
+        let cumulative_anchor_class = |obs: &[Out], exp: &[Out]| {
+            if f != "anchors" {
+                return false;
+            }
+            let i = (0..obs.len().max(exp.len())).find(|&i| obs.get(i) != exp.get(i));
+            match i {
+                Some(i) if i < docs.len() => {
+                    matches!(obs.get(i), Some(Err((_, Some("anchors")))))
+                        && per_doc("anchors", i) <= limit
+                        && (0..=i).map(|k| per_doc("anchors", k)).sum::<u64>() > limit
+                }
+                _ => false,
+            }
+        };
+        if observed != expected {
+            let sig = if cumulative_anchor_class(&observed, &expected) {
+                "C07:per-document:anchors:cumulative-across-documents".to_string()
+            } else {
+                format!("C07:per-document:{f}:stream-differs-from-documents-alone")
+            };
+            violation(
+    run,
+                &sig,
+                cj(),
+                format!(
+                    "stream items {:?} != items of the documents read alone {:?}",
+                    observed.iter().map(show).collect::<Vec<_>>(),
+                    expected.iter().map(show).collect::<Vec<_>>()
+                ),
+            );
+        } else {
+            loc.add("perdoc_stream_equals_solo");
+        }
+        // (b) model: the first document whose own usage exceeds the limit fails with that field; all before are Ok
+        if f != "events" && f != "documents" {
+            let first_bad = (0..docs.len()).find(|&j| per_doc(f, j) > limit);
+            let mut want: Vec<Out> = Vec::new();
+            for j in 0..docs.len() {
+                if Some(j) == first_bad {
+                    want.push(Err(("Budget".to_string(), Some(f))));
+                    break;
+                }
+                want.push(base[j].clone());
+            }
+            if observed != want {
+                let sig = if cumulative_anchor_class(&observed, &want) {
+                    "C07:per-document:anchors:cumulative-across-documents".to_string()
+                } else if f == "merge_keys" && m.flags.alias_direct_map_child {
+                    SIG_MERGE_MISCOUNT.to_string()
+                } else {
+                    format!("C07:per-document:{f}:not-per-document-count")
+                };
+                violation(
+    run,
+                    &sig,
+                    cj(),
+                    format!(
+                        "per-document usage {:?}, limit {limit}: items {:?}, expected {:?}",
+                        (0..docs.len()).map(|j| per_doc(f, j)).collect::<Vec<_>>(),
+                        observed.iter().map(show).collect::<Vec<_>>(),
+                        want.iter().map(show).collect::<Vec<_>>()
+                    ),
+                );
+            } else {
+                loc.add("perdoc_model_agrees");
+                if first_bad.is_some() {
+                    run.observe("perdoc_breach_fields_seen", f);
+                }
+            }
+            if docs.len() >= 2 && (0..docs.len()).any(|j| per_doc(f, j) >= 2) {
+                nontrivial = true;
+            }
+        }
+        if f == "documents" {
+            let all_ok: Vec<Out> = base.clone();
+            if observed != all_ok {
+                violation(
+    run,
+                    "C07:per-document:max_documents-not-ignored",
+                    cj(),
+                    format!("max_documents=0 under the per-document policy changed the items: {:?}", observed.iter().map(show).collect::<Vec<_>>()),
+                );
+            }
+        }
+    }
+    if nontrivial {
+        let parts: Vec<&[u8]> = docs.iter().map(|d| d.as_bytes()).collect();
+        run.nontrivial(fnv_parts(&parts) ^ 0x7065_7264_6f63);
+    }
+}
+
+fn doc_counts(d: &bm::DocModel) -> (u64, u64, u64, u64, u64, u64, u64, u64) {
+    (d.parser_pumps, d.replayed_events, d.aliases, d.anchors, d.nodes, d.max_depth, d.total_scalar_bytes, d.merge_keys)
+}
+
+// ------------------------------------------------------------------ generators
+
+/// All decorations of a base tree with <= 2 anchors and <= 2 aliases (>= 1 alias or anchor), plus merge-key variants.
+fn decorations(base: &Node) -> Vec<Node> {
+    let paths = treegen::node_paths(base);
+    let leaf_paths: Vec<&Vec<usize>> = paths
+        .iter()
+        .filter(|p| match treegen::node_at(base, p) {
+            Node::Scalar { .. } => true,
+            Node::Seq { items, .. } => items.is_empty(),
+            Node::Map { entries, .. } => entries.is_empty(),
+            Node::Alias(_) => false,
+        })
+        .collect();
+    let mut anchor_sets: Vec<Vec<(&Vec<usize>, &str)>> = vec![vec![]];
+    for p in &paths {
+        anchor_sets.push(vec![(p, "a")]);
+    }
+    for i in 0..paths.len() {
+        for j in (i + 1)..paths.len() {
+            anchor_sets.push(vec![(&paths[i], "a"), (&paths[j], "a")]);
+            anchor_sets.push(vec![(&paths[i], "a"), (&paths[j], "b")]);
+        }
+    }
+    let mut alias_sets: Vec<Vec<(&Vec<usize>, &str)>> = vec![vec![]];
+    for p in &leaf_paths {
+        alias_sets.push(vec![(p, "a")]);
+        alias_sets.push(vec![(p, "b")]);
+    }
+    for i in 0..leaf_paths.len() {
+        for j in (i + 1)..leaf_paths.len() {
+            for (x, y) in [("a", "a"), ("a", "b"), ("b", "a"), ("b", "b")] {
+                alias_sets.push(vec![(leaf_paths[i], x), (leaf_paths[j], y)]);
+            }
+        }
+    }
+    let mut out = Vec::new();
+    for an in &anchor_sets {
+        for al in &alias_sets {
+            if an.is_empty() && al.is_empty() {
+                continue;
+            }
+            if an.iter().any(|(p, _)| al.iter().any(|(q, _)| p == q)) {
+                continue;
+            }
+            let mut t = base.clone();
+            for (p, name) in an {
+                let n = treegen::node_at_mut(&mut t, p);
+                *n = n.clone().with_anchor(name);
+            }
+            for (p, name) in al {
+                *treegen::node_at_mut(&mut t, p) = Node::alias(name);
+            }
+            // only documents whose aliases resolve are of use here
+            if ydoc::expand(&t).is_none() {
+                continue;
+            }
+            out.push(t.clone());
+            // merge-key variants: the key of an aliased map value, and (separately) of any map-valued entry
+            for (p, _) in al {
+                if let Some((&last, parent)) = p.split_last()
+                    && last % 2 == 1
+                    && matches!(treegen::node_at(&t, parent), Node::Map { .. })
+                {
+                    let mut t2 = t.clone();
+                    let mut kp = parent.to_vec();
+                    kp.push(last - 1);
+                    let key = treegen::node_at_mut(&mut t2, &kp);
+                    if key.anchor().is_none() && !matches!(key, Node::Alias(_)) {
+                        *key = Node::plain("<<");
+                        out.push(t2);
+                    }
+                }
+            }
+        }
+    }
+    out
+}
+
+fn random_decorated(rng: &mut Rng) -> Node {
+    let mut counter = 0;
+    let budget = rng.range(4, 40);
+    let mut t = treegen::random_tree(rng, budget, 5, LEAVES_BASIC, &mut counter);
+    let paths = treegen::node_paths(&t);
+    let names = ["a", "b", "c", "d"];
+    let n_anchor = rng.range(1, 6.min(paths.len()));
+    for _ in 0..n_anchor {
+        let p = rng.pick(&paths).clone();
+        let name = *rng.pick(&names);
+        let n = treegen::node_at_mut(&mut t, &p);
+        if !matches!(n, Node::Alias(_)) {
+            *n = n.clone().with_anchor(name);
+        }
+    }
+    let n_alias = rng.range(1, 6);
+    for _ in 0..n_alias {
+        let paths = treegen::node_paths(&t);
+        let p = rng.pick(&paths).clone();
+        if p.is_empty() {
+            continue;
+        }
+        let name = *rng.pick(&names);
+        let mut t2 = t.clone();
+        *treegen::node_at_mut(&mut t2, &p) = Node::alias(name);
+        if let Some((&last, parent)) = p.split_last()
+            && last % 2 == 1
+            && rng.chance(1, 3)
+        {
+            let mut kp = parent.to_vec();
+            kp.push(last - 1);
+            *treegen::node_at_mut(&mut t2, &kp) = Node::plain("<<");
+        }
+        // keep the replacement only if everything still resolves
+        if ydoc::expand(&t2).is_some() {
+            t = t2;
+        }
+    }
+    // occasionally a plain `<<` as an ordinary value / sequence item (must not count)
+    if rng.chance(1, 5) {
+        let paths = treegen::node_paths(&t);
+        let p = rng.pick(&paths).clone();
+        if let Some((&last, parent)) = p.split_last() {
+            let in_map = matches!(treegen::node_at(&t, parent), Node::Map { .. });
+            if (!in_map || last % 2 == 1) && matches!(treegen::node_at(&t, &p), Node::Scalar { anchor: None, .. }) {
+                *treegen::node_at_mut(&mut t, &p) = Node::plain("<<");
+            }
+        }
+    }
+    t
+}
+
+/// Fixed pool of small documents for the stream part (rendered and confirmed at start-up).
+fn stream_pool() -> Vec<Node> {
+    let p = Node::plain;
+    vec![
+        p("x"),
+        p("x").with_anchor("a"),
+        Node::seq(vec![p("x").with_anchor("a"), Node::alias("a")]),
+        Node::seq(vec![p("x").with_anchor("a"), p("y").with_anchor("b"), Node::alias("b")]),
+        Node::map(vec![(p("k"), p("v"))]),
+        Node::map(vec![(p("k"), p("v").with_anchor("a")), (p("j"), Node::alias("a"))]),
+        Node::map(vec![(p("b"), Node::fmap(vec![(p("k"), p("v"))]).with_anchor("a")), (p("t"), Node::fmap(vec![(p("<<"), Node::alias("a"))]))]),
+        Node::map(vec![
+            (p("b"), Node::fmap(vec![(p("k"), p("v"))]).with_anchor("a")),
+            (p("t"), Node::fmap(vec![(p("<<"), Node::alias("a")), (p("z"), p("1"))])),
+            (p("u"), Node::fmap(vec![(p("<<"), Node::alias("a"))])),
+        ]),
+        Node::seq(vec![Node::fseq(vec![p("x"), p("yy")]).with_anchor("a"), Node::alias("a"), Node::alias("a")]),
+        Node::seq(vec![Node::seq(vec![Node::seq(vec![p("deep")])])]),
+        Node::fseq(vec![Node::fseq(vec![p("x").with_anchor("a")]).with_anchor("b"), Node::alias("b"), Node::alias("a")]),
+        Node::map(vec![(p("x"), p("1").with_anchor("a")), (p("m"), Node::fmap(vec![(p("k"), p("2"))]).with_anchor("b")), (p("t"), Node::fmap(vec![(p("q"), Node::alias("a")), (p("<<"), Node::alias("b"))]))]),
+        Node::dq("long scalar value"),
+        Node::seq(vec![p("a1").with_anchor("a"), p("a2").with_anchor("a"), Node::alias("a")]),
+    ]
+}
+
+fn render_doc(run: &Run, t: &Node, flow: bool, ro: &RenderOpts) -> Option<String> {
+    let mut t = t.clone();
+    if flow {
+        t.set_flow(true);
+    }
+    match render_checked(&t, ro) {
+        Some((text, _)) => Some(text),
+        None => {
+            run.inconclusive("generator-invalid: document not parsed as intended");
+            None
+        }
+    }
+}
+
+// ------------------------------------------------------------------ main
+
+fn main() {
+    let run = Run::from_args("C07");
+    if let Some(rep) = run.is_replay() {
+        let case = &rep["case"];
+        let mut loc = Local::default();
+        match case["kind"].as_str() {
+            Some("perdoc") => {
+                let docs: Vec<String> =
+                    case["docs"].as_array().map(|a| a.iter().filter_map(|s| s.as_str().map(String::from)).collect()).unwrap_or_default();
+                check_perdoc(&run, &docs, &mut loc);
+            }
+            _ => {
+                let text = case["text"].as_str().unwrap_or("").to_string();
+                check_input(&run, Entry::of(case["entry"].as_str().unwrap_or("")), &text, &mut loc);
+            }
+        }
+        run.finish(Finish::new("replay"));
+    }
+
+    let tier = run.tier;
+    let ro = RenderOpts::new();
+    let max_nodes = tier.pick(4, 5);
+
+    // ---- A. exhaustive small documents
+    let mut bases = Vec::new();
+    for n in 1..=max_nodes {
+        bases.extend(treegen::base_trees(n, LEAVES_BASIC));
+    }
+    run.count("base_trees", bases.len() as u64);
+    par_range(bases.len(), |i| {
+        let mut loc = Local::default();
+        // the undecorated tree too (alias-free: check_yaml_budget, ratio with no aliases)
+        let mut all = vec![bases[i].clone()];
+        all.extend(decorations(&bases[i]));
+        for (j, d) in all.iter().enumerate() {
+            for flow in [false, true] {
+                let Some(text) = render_doc(&run, d, flow, &ro) else { continue };
+                loc.add(if flow { "cases_flow" } else { "cases_block" });
+                check_input(&run, Entry::Str, &text, &mut loc);
+                if (i + j) % 5 == 0 {
+                    check_input(&run, Entry::Reader, &text, &mut loc);
+                }
+                if (i * 31 + j) % 4099 == 0 {
+                    run.sample(|| json!({"text": text}));
+                }
+            }
+        }
+        run.count_map(&loc.c);
+    });
+
+    run.note(format!("phase A (exhaustive small documents) done at {:.1}s", run.elapsed_s()));
+
+    // ---- B. fixed small corpus (shapes the generators reach rarely)
+    let corpus: &[&str] = &[
+        "a: 1\n",
+        "x: &x 1\nm: &m {k: 2}\nt: {a: *x, <<: *m}\n",
+        "x: &x 1\nm: &m {k: 2}\nt: {<<: *m, a: *x}\n",
+        "x: &x 1\nt: {a: *x, b: <<}\n",
+        "k: &k kk\nt: {*k : 1, <<: {z: 2}}\n",
+        "b: &b {k: v}\nl: &l [*b, *b]\nt: {<<: *l}\nu: *l\n",
+        "- &a [1, 2, 3]\n- &b [*a, *a]\n- &c [*b, *b]\n- *c\n",
+        "- &a\n  - &b\n    - &c [x, y]\n    - *c\n  - *b\n- *a\n",
+        "- \"<<\"\n- '<<'\n- <<\n- {\"<<\": 1}\n",
+        "? [a, b]\n: &v {<<: {p: 1}}\nw: *v\n",
+        "s: &s |\n  literal text\nt: *s\n",
+    ];
+    {
+        let mut loc = Local::default();
+        for t in corpus {
+            check_input(&run, Entry::Str, t, &mut loc);
+            check_input(&run, Entry::Reader, t, &mut loc);
+            check_input(&run, Entry::Multi, t, &mut loc);
+        }
+        run.count_map(&loc.c);
+    }
+
+    // ---- C. random larger documents
+    let n_random = tier.pick(20_000, 300_000);
+    par_range(n_random, |i| {
+        let mut rng = Rng::stream(run.seed, i as u64);
+        let mut loc = Local::default();
+        let t = random_decorated(&mut rng);
+        let flow = rng.chance(1, 3);
+        let ro = RenderOpts { indent: *rng.pick(&[1usize, 2, 4]), brk: "\n", compact: rng.bool() };
+        if let Some(text) = render_doc(&run, &t, flow, &ro) {
+            loc.add("random_documents");
+            let e = *rng.pick(&[Entry::Str, Entry::Str, Entry::Reader, Entry::Multi]);
+            check_input(&run, e, &text, &mut loc);
+            if i % 997 == 0 {
+                run.sample(|| json!({"text": text, "entry": e.name()}));
+            }
+        }
+        run.count_map(&loc.c);
+    });
+
+    run.note(format!("phase B+C (corpus, random documents) done at {:.1}s", run.elapsed_s()));
+
+    // ---- D. streams: AllContent (from_multiple) and PerDocument (read_with_options)
+    let pool: Vec<String> = stream_pool().iter().filter_map(|t| render_doc(&run, t, false, &ro)).collect();
+    run.count("stream_pool_documents", pool.len() as u64);
+    let exh_len = tier.pick(2, 3);
+    let mut streams: Vec<Vec<usize>> = Vec::new();
+    for len in 1..=exh_len {
+        let total = pool.len().pow(len as u32);
+        for mut code in 0..total {
+            let mut idx = Vec::with_capacity(len);
+            for _ in 0..len {
+                idx.push(code % pool.len());
+                code /= pool.len();
+            }
+            streams.push(idx);
+        }
+    }
+    let n_exh_streams = streams.len();
+    run.count("streams_exhaustive", n_exh_streams as u64);
+    let n_rand_streams = tier.pick(3_000, 40_000);
+    par_range(n_exh_streams + n_rand_streams, |i| {
+        let mut loc = Local::default();
+        let mut rng = Rng::stream(run.seed ^ 0x5354_5245_414d, i as u64);
+        let docs: Vec<String> = if i < n_exh_streams {
+            streams[i].iter().map(|&k| pool[k].clone()).collect()
+        } else {
+            let len = rng.range(exh_len + 1, 6);
+            (0..len)
+                .map(|_| {
+                    if rng.chance(2, 3) {
+                        pool[rng.below(pool.len())].clone()
+                    } else {
+                        let t = random_decorated(&mut rng);
+                        let is_nullish_root = matches!(&t, Node::Scalar { text, .. } if text == "~" || text.is_empty());
+                        match render_checked(&t, &ro) {
+                            Some((s, _)) if !is_nullish_root => s,
+                            _ => pool[rng.below(pool.len())].clone(),
+                        }
+                    }
+                })
+                .collect()
+        };
+        check_perdoc(&run, &docs, &mut loc);
+        // permutations of the documents (the oracle is per stream, so each permutation is checked in full)
+        if docs.len() >= 2 {
+            let mut p = docs.clone();
+            if docs.len() <= 3 && i < n_exh_streams {
+                // exhaustive part already contains every ordering of every multiset
+            } else {
+                for _ in 0..2 {
+                    rng.shuffle(&mut p);
+                    check_perdoc(&run, &p, &mut loc);
+                    loc.add("perdoc_permutations");
+                }
+            }
+        }
+        // the same stream under AllContent
+        let text = join_stream(&docs);
+        if i % 3 == 0 || i >= n_exh_streams {
+            check_input(&run, Entry::Multi, &text, &mut loc);
+            loc.add("multi_streams");
+        }
+        if i % 499 == 0 {
+            run.sample(|| json!({"stream": docs}));
+        }
+        run.count_map(&loc.c);
+    });
+
+    run.note(format!("phase D (streams) done at {:.1}s", run.elapsed_s()));
+    run.count("budget_errors_wrapped_in_AliasError", WRAPPED.load(std::sync::atomic::Ordering::Relaxed));
+    let _ = reftree::norm_tag;
+    let scope = format!(
+        "(A) every base tree with <= {max_nodes} nodes over 5 scalar leaves + empty seq/map, undecorated and with every placement of <= 2 anchors (a,a / a,b) x every replacement of <= 2 leaves by aliases whose expansion is defined x merge-key variant, x {{block, flow}}, each under: all limits off, and for each of the 8 counters limit = U and U-1 (events also U-2), and 3-5 ratio settings; (D) every stream of <= {exh_len} documents over a pool of {} documents, each under every per-document threshold budget",
+        pool.len()
+    );
+    let fin = Finish::new(
+        "a case (input, entry point) is non-trivial when >= 1 counter has usage >= 2 and both the limit=U and limit=U-1 runs executed; a stream is non-trivial when it has >= 2 documents and some counter has per-document usage >= 2 (both its U and U-1 budgets are run); distinct by hash(text, entry) / hash(documents)",
+    )
+    .exhaustive(scope)
+    .assume("raw saphyr-parser event stream is the ground truth; a verdict is given only when the independent count equals the hook trace on pumps by source, replayed events, nodes, depth, scalar bytes, alias pushes and document resets")
+    .assume("counted quantities mean what the doc comments of Budget/BudgetReport say; `<<` reached through an alias key or carrying a tag is unspecified")
+    .assume("after the first Err item of read_with_options nothing is specified (the docs say the iterator ends on budget errors; the code tries to resynchronise)")
+    .min_nontrivial(if tier == Tier::Quick { 2_000 } else { 20_000 });
+    run.finish(fin);
 }
